@@ -445,6 +445,14 @@ func checkN1b(c *Ctx, pr *prioRoles) {
 				}
 				n++
 				_, isDefer := in.(*ssa.Defer)
+				if !isDefer && fn != pr.rt.E.Entry && b == straightLine(fn) {
+					// in a clean-up helper that only runs as an unconditional defer of the entry
+					entries := map[*ssa.Function]*GoEntry{pr.rt.E.Entry: pr.rt.E}
+					if e := p.cleanupOnly(fn, entries, 0); e == pr.rt.E && name == "(*time.Ticker).Stop" {
+						c.R.Pass("N1", fmt.Sprintf("%s#interrupter.%d", p.FnKey(fn), n), p.InstrPos(in), "interrupter stopped only by the entry's deferred clean-up")
+						continue
+					}
+				}
 				c.R.Check(isDefer && fn == pr.rt.E.Entry && name == "(*time.Ticker).Stop", "N1", fmt.Sprintf("%s#interrupter.%d", p.FnKey(fn), n), p.InstrPos(in), "interrupter stopped only by a defer of the goroutine entry",
 					"the interrupter ticker is stopped or re-armed while the scheduler runs: the bounded-ticks exit of the unbuffered-input receive never fires and an empty open input blocks the round")
 			}
